@@ -1,4 +1,4 @@
 SPECIFICATION MCSpec
-CONSTANTS MaxOpts = 1  Wide = FALSE  DoFiles = TRUE  Big = FALSE  Strict = "sedctx"
+CONSTANTS MaxOpts = 1  Wide = FALSE  DoFiles = TRUE  Cov = FALSE  Big = FALSE  Strict = "sedctx"
 INVARIANTS StrictInv
 CHECK_DEADLOCK FALSE
